@@ -542,6 +542,7 @@ theorem c14Ext_ok : ExtOk c14Ext where
   fromiso_valueError := extRaising_ok.fromiso_valueError
   numpy_total := extRaising_ok.numpy_total
   custom_good := extRaising_ok.custom_good
+  dt_total := ⟨extRaising_ok.dt_total.1, extRaising_ok.dt_total.2, extRaising_ok.dt_total.3⟩
 
 example : constructM c14Ext c14R (convOf c14Ext c14Cs) true [] [("k", .int 2), ("a", .bool true)] =
     .value (.obj "R" [("a", .int 1), ("b", .list []), ("k", .int 2)] ["a", "k"]) := by
